@@ -62,7 +62,7 @@ def instances(tier, rnd):
         I.append(vector((g,)))
     for m in ((3,) if tier == "quick" else range(6)):
         I.append(vector(("u",), missing=m))
-    multis = [("u", "d"), ("ip0", "ip1"), ("b", "blong"), ("rd", "rdlong"), ("file", "file2"), ("keep", "u"), ("file", "u", "b"), ("t", "tlong", "w")]
+    multis = [("u", "rd"), ("u", "rdbad"), ("d", "rd"), ("keep", "rd"), ("u", "d"), ("ip0", "ip1"), ("b", "blong"), ("rd", "rdlong"), ("file", "file2"), ("keep", "u"), ("file", "u", "b"), ("t", "tlong", "w")]
     if tier == "thorough":
         multis += [("d", "u"), ("p", "plong"), ("u", "keep")]
     if tier == "thorough":
@@ -70,7 +70,7 @@ def instances(tier, rnd):
     for ms in multis:
         perms = sorted(set(itertools.permutations(ms)))
         if tier == "quick" and len(perms) > 1:
-            perms = rnd.sample(perms, 1) if len(ms) > 2 else perms
+            perms = rnd.sample(perms, 1) if len(ms) > 2 else perms  # pairs: both orders
         for p in perms:
             I.append(vector(p))
     seen, J = set(), []
